@@ -77,6 +77,8 @@ pub fn merge_stats(a: &mut Stats, b: &Stats) {
     a.par_items += b.par_items;
     a.par_batches += b.par_batches;
     a.max_pool_threads = a.max_pool_threads.max(b.max_pool_threads);
+    a.tasks_started += b.tasks_started;
+    a.tasks_refused += b.tasks_refused;
     a.map_ops += b.map_ops;
 }
 
